@@ -53,6 +53,7 @@ GROUP_OF = {a: g for g, d in GROUPS.items() for a in d['attrs']}
 LOAD_GROUP = {d['load']: g for g, d in GROUPS.items()}
 INIT_GROUP = {(d['module'] + '.py', d['init']): g for g, d in GROUPS.items()}
 CLASSES = ('Element', 'Isotope', 'Ion')
+CLASS_LABEL = {'Element': 'E', 'Isotope': 'I', 'Ion': 'N'}
 ROUTES = OrderedDict([('el', 'Fe'), ('iso', 'Fe[58]'), ('ion', 'Fe.ion[2]'), ('isoion', 'Fe[58].ion[2]')])
 OBJECT_ROUTES = list(ROUTES)            # the routes every group must have been fired through
 SUBMODULES = ['nsf', 'xsf', 'covalent_radius', 'crystal_structure', 'magnetic_ff', 'activation',
@@ -313,7 +314,7 @@ def abstract_state(fine=False):
     parts = []
     for cname in CLASSES:
         cls = getattr(core, cname)
-        parts.append(cname[0] + ':' + ''.join(_kind(cls.__dict__.get(a, _SENTINEL)) for a in ATTRS))
+        parts.append(CLASS_LABEL[cname] + ':' + ''.join(_kind(cls.__dict__.get(a, _SENTINEL)) for a in ATTRS))
     parts.append('props:' + ','.join(sorted(set(t.properties))))
     if fine:
         # multiplicity of every name in table.properties, capped at 2
@@ -326,7 +327,7 @@ def abstract_state(fine=False):
                 d = atom(spec).__dict__
             except Exception:
                 d = {}
-            parts.append(spec + ':' + ''.join('i' if a in d else '.' for a in ATTRS + ['_xray', 'nuclear_spin']))
+            parts.append(spec + ':' + ''.join('i' if a in d else '.' for a in ATTRS + ['nuclear_spin']))
         e, i = core.Element.__dict__.get('neutron', _SENTINEL), core.Isotope.__dict__.get('neutron', _SENTINEL)
         parts.append('same-missing:%d' % int(e is i and e is not _SENTINEL))
     return '|'.join(parts)
@@ -379,36 +380,40 @@ def digest():
     return d
 
 
+def entry_attr(key):
+    """Attribute name (or calc:<name>) a digest entry belongs to."""
+    if key.startswith('calc:'):
+        return key
+    if '->' in key:
+        return key.split('->', 1)[1]
+    return key.rsplit('.', 1)[1].replace('(own)', '')
+
+
 def diff_digest(got, want, limit=12):
-    """Per-entry comparison: (number of differing entries, first *limit* of them as [key, got, want])."""
+    """Per-entry comparison: [number of differing entries, the first *limit* of them as
+    [key, got, want], sorted attribute names over ALL differing entries]."""
     bad = []
+    attrs = set()
     n = 0
     for k in want:
         g = got.get(k, 'MISSING-ENTRY')
         if g != want[k]:
             n += 1
+            attrs.add(entry_attr(k))
             if len(bad) < limit:
                 bad.append([k, _short(g), _short(want[k])])
     for k in got:
         if k not in want:
             n += 1
+            attrs.add(entry_attr(k))
             if len(bad) < limit:
                 bad.append([k, _short(got[k]), 'MISSING-ENTRY'])
-    return n, bad
+    return [n, bad, sorted(attrs)]
 
 
-def diff_attrs(bad_entries):
-    """Attribute names (or calc:<name>) touched by a list of differing entries."""
-    out = set()
-    for k, _, _ in bad_entries:
-        if k.startswith('calc:'):
-            out.add(k)
-        elif '->' in k:
-            out.add(k.split('->', 1)[1])
-        else:
-            tail = k.rsplit('.', 1)[1]
-            out.add(tail.replace('(own)', ''))
-    return sorted(out)
+def coarse_of(state):
+    """The coarse part (class-dict kinds + property set) of a coarse or fine abstract state."""
+    return '|'.join(state.split('|')[:4])
 
 
 def _short(v, n=200):
@@ -776,8 +781,7 @@ def expand_here(history, events, canon_vals, canon_digest, fine, want_digest, ba
     res = {'state': s, 'out': out}
     if want_digest:
         def dig():
-            n, bad = diff_digest(digest(), canon_digest)
-            return [n, bad]
+            return diff_digest(digest(), canon_digest)
         res['digest'] = fork_call(dig, timeout=120)
     return res
 
@@ -805,7 +809,7 @@ class Walk(object):
         self.edges = {}                 # state -> {event: successor state}
         self.transitions = 0
         self.event_violations = []      # (history, event, observed value)
-        self.digest_violations = []     # (history, ndiff, entries)
+        self.digest_violations = []     # (history, ndiff, first entries, attribute names)
         self.digests = 0
         self.errors = []
         self.capped = False
@@ -850,7 +854,7 @@ class Walk(object):
                         else:
                             self.digests += 1
                             if dp[0]:
-                                self.digest_violations.append((h, dp[0], dp[1]))
+                                self.digest_violations.append((h, dp[0], dp[1], dp[2]))
                     for name in self.events[c:c + self.chunk]:
                         estatus, ep = payload['out'][name]
                         if estatus != 'ok':
@@ -891,14 +895,14 @@ class Walk(object):
 
     def digest_histories(self, histories, nproc=None):
         """Digest after each given history (forked from the pristine interpreter);
-        returns {index: (ndiff, entries)} and appends failures to self.errors."""
+        returns {index: [ndiff, entries, attrs, abstract state]} and appends failures to self.errors."""
         out = {}
 
         def task(h):
             def run():
                 replay_here(h)
-                n, bad = diff_digest(digest(), self.canon_digest)
-                return [n, bad, abstract_state(self.fine)]
+                s_after = abstract_state(self.fine)     # before the digest: digesting loads every group
+                return diff_digest(digest(), self.canon_digest) + [s_after]
             return run
         pool = ForkPool(nproc or self.nproc, timeout=300)
 
